@@ -4,8 +4,10 @@ from harness.common import bud
 from harness.props import c01, c05
 
 PROP = "C16"
-MODULES = ["CassisModel.Properties.C16Chain", "CassisModel.Properties.C01", "CassisModel.Properties.C02", "CassisModel.Properties.C04", "CassisModel.Properties.C13"]
+MODULES = ["CassisModel.Properties.C16Chain", "CassisModel.Properties.C01", "CassisModel.Properties.C02", "CassisModel.Properties.C04", "CassisModel.Properties.C13", "CassisModel.Properties.C16ChainColl"]
 THEOREMS = [
+    "Cassis.chain_xmi_json_coll",
+    "Cassis.chain_json_xmi_coll",
     "Cassis.chain_xmi_json_flat",
     "Cassis.chain_json_xmi_flat",
     "Cassis.Xmi.saveXmi_shape",
